@@ -76,6 +76,8 @@ struct Outcome {
 extern "C" int __lsan_do_recoverable_leak_check() __attribute__((weak));
 inline bool& leakcheck_enabled() { static bool b = false; return b; }
 
+__attribute__((noinline)) inline void scrub_stack() { volatile char buf[1 << 16]; for (size_t k = 0; k < sizeof buf; k += 64) buf[k] = 0; }
+
 inline Outcome execute(Engine &eng, const Json &cs) {
     Outcome o;
     Chooser ch;
@@ -87,10 +89,14 @@ inline Outcome execute(Engine &eng, const Json &cs) {
     } catch (const std::exception &ex) {
         o.error = std::string("exception: ") + ex.what();
     }
-    if (leakcheck_enabled() && __lsan_do_recoverable_leak_check && __lsan_do_recoverable_leak_check())
-        o.r.fail("lsan:leak", "LeakSanitizer found memory that became unreachable during this run");
     for (auto &c : o.r.classes) ch.log.add_str(c);
     o.event_hash = ch.log.h;
+    // leak attribution is not part of the event log: which check first sees a block as unreachable
+    // can depend on stale stack contents
+    if (leakcheck_enabled() && __lsan_do_recoverable_leak_check) {
+        scrub_stack();
+        if (__lsan_do_recoverable_leak_check()) o.r.fail("lsan:leak", "LeakSanitizer found memory that became unreachable during this run");
+    }
     o.steps = ch.steps;
     o.choices = ch.trace_json();
     return o;
@@ -420,6 +426,8 @@ inline int worker_main(Engine &eng, int argc, char **argv) {
     }
     unlink(inflight.c_str());
     printf("D {\"done\":true}\n");
+    fflush(stdout); fflush(stderr);
+    if (leakcheck_enabled()) _exit(0);      // leaks were attributed run by run; skip the exit-time report
     return 0;
 }
 
